@@ -258,6 +258,83 @@ Section Closure.
       + exact (Hcl (fun y0 (H0 : In y0 []) => match H0 with end) y Hy z Hz).
       + apply Hsucc, Hz.
   Qed.
+
+  (* ---------- the order: what a module imports comes before it, unless it leads back to it ---------- *)
+  Definition before (z y : module) (l : list module) : Prop := exists l1 l2, l = l1 ++ l2 /\ In z l1 /\ In y l2.
+
+  Lemma before_app_l z y a b : before z y a -> before z y (a ++ b).
+  Proof. intros (l1 & l2 & -> & Hz & Hy). exists l1, (l2 ++ b). split; [rewrite app_assoc; reflexivity|]. split; [exact Hz|apply in_or_app; left; exact Hy]. Qed.
+  Lemma before_app_r z y a b : before z y b -> before z y (a ++ b).
+  Proof. intros (l1 & l2 & -> & Hz & Hy). exists (a ++ l1), l2. split; [rewrite app_assoc; reflexivity|]. split; [apply in_or_app; right; exact Hz|exact Hy]. Qed.
+  Lemma before_split z y a b : In z a -> In y b -> before z y (a ++ b).
+  Proof. intros Hz Hy. exists a, b. auto. Qed.
+
+  (* for every edge y -> z out of a delivered module: z was delivered before y, or z was seen before the call, or z
+     leads back to y (an import cycle) *)
+  Definition ordered (seen : list str) (out : list module) : Prop :=
+    forall y z, In y out -> edge y z -> before z y out \/ In (m_name z) seen \/ reach z y.
+
+  Lemma fold_ordered f
+    (IHs : forall seen m out seen', In m ms -> imports_rec f ms provs seen m = (out, seen') -> spec seen m out seen')
+    (IH : forall seen m out seen', In m ms -> unseen seen < f -> imports_rec f ms provs seen m = (out, seen') -> ordered seen out)
+    (S0 : list str) :
+    forall root l o s o' s', (forall x, In x l -> In x ms /\ edge root x) -> unseen s < f ->
+      fold_left (visit f) l (o, s) = (o', s') ->
+      (forall n, In n s -> In n S0 \/ exists y, In y o /\ m_name y = n) -> (forall y, In y o -> In y ms) ->
+      ordered S0 o ->
+      (forall n, In n s' -> In n S0 \/ exists y, In y o' /\ m_name y = n) /\ ordered S0 o'.
+  Proof.
+    intros root. induction l as [|x t IHl]; intros o s o' s' Hl Hf HF HI Hsel HG.
+    - cbn in HF. injection HF as <- <-. split; assumption.
+    - cbn [fold_left] in HF. unfold visit at 2 in HF. cbn [fst snd] in HF.
+      destruct (imports_rec f ms provs s x) as [r s1] eqn:Er.
+      destruct (Hl x (or_introl eq_refl)) as [Hx Hedge].
+      pose proof (IHs _ _ _ _ Hx Er) as Sx. pose proof (IH _ _ _ _ Hx Hf Er) as Ox.
+      assert (Hl' : forall x0, In x0 t -> In x0 ms /\ edge root x0) by (intros x0 Hx0; apply Hl; right; exact Hx0).
+      assert (Hf' : unseen s1 < f) by (pose proof (unseen_mono _ _ (sp_mono _ _ _ _ Sx)); lia).
+      apply (IHl _ _ _ _ Hl' Hf' HF).
+      + intros n Hn. destruct (sp_only _ _ _ _ Sx n Hn) as [Hs|(y & Hy & Ey)].
+        * destruct (HI n Hs) as [H0|(y & Hy & Ey)]; [left; exact H0|right; exists y; split; [apply in_or_app; left; exact Hy|exact Ey]].
+        * right. exists y. split; [apply in_or_app; right; exact Hy|exact Ey].
+      + intros y Hy. apply in_app_or in Hy. destruct Hy as [Hy|Hy]; [apply Hsel, Hy|exact (sp_sel _ _ _ _ Sx y Hy)].
+      + intros y z Hy Hyz. apply in_app_or in Hy. destruct Hy as [Hy|Hy].
+        * destruct (HG y z Hy Hyz) as [Hb|[Hs|Hr]]; [left; apply before_app_l; exact Hb|right; left; exact Hs|right; right; exact Hr].
+        * destruct (Ox y z Hy Hyz) as [Hb|[Hs|Hr]]; [left; apply before_app_r; exact Hb| |right; right; exact Hr].
+          destruct (HI _ Hs) as [H0|(z' & Hz' & Ez)]; [right; left; exact H0|].
+          left. assert (Ezz : z' = z).
+          { apply same_name_same_module; [apply Hsel, Hz'|exact (succs_selected y z Hyz)|exact Ez]. }
+          subst z'. apply before_split; assumption.
+  Qed.
+
+  Lemma imports_rec_ordered : forall f seen m out seen', In m ms -> unseen seen < f ->
+    imports_rec f ms provs seen m = (out, seen') -> ordered seen out.
+  Proof.
+    induction f as [|f IH]; intros seen m out seen' Hm Hf HR; [lia|].
+    rewrite imports_rec_unfold in HR. destruct (mem_str (m_name m) seen) eqn:Em.
+    - injection HR as <- <-. intros y z [].
+    - apply mem_str_false in Em.
+      destruct (fold_left (visit f) (succs m) ([], m_name m :: seen)) as [res s1] eqn:EF. injection HR as <- <-.
+      assert (Hl : forall x, In x (succs m) -> In x ms /\ edge m x) by (intros x Hx; split; [exact (succs_selected m x Hx)|exact Hx]).
+      assert (Hf' : unseen (m_name m :: seen) < f) by (pose proof (unseen_cons (m_name m) seen (U_names m Hm) Em); lia).
+      pose proof (fold_spec f (imports_rec_spec f) m _ _ _ _ _ Hl EF) as St.
+      destruct (fold_closed f (imports_rec_spec f) (imports_rec_closed f) m _ _ _ _ _ Hl Hf' EF) as [Hsucc _].
+      destruct (fold_ordered f (imports_rec_spec f) IH (m_name m :: seen) m _ _ _ _ _ Hl Hf' EF) as [HI HG].
+      { intros n Hn. left. exact Hn. }
+      { intros y []. }
+      { intros y z []. }
+      assert (Hres_sel : forall y, In y res -> In y ms) by (intros y Hy; apply (ls_sel _ _ _ _ _ St); [intros z []|exact Hy]).
+      assert (Hres_reach : forall y, In y res -> reach m y) by (intros y Hy; apply (ls_reach _ _ _ _ _ St); [intros z []|exact Hy]).
+      (* a name of the base set is the module itself or was seen before *)
+      assert (Hbase : forall y z, In z ms -> reach m y -> In (m_name z) (m_name m :: seen) -> In (m_name z) seen \/ reach z y).
+      { intros y z Hz Hry [E|Hs]; [|left; exact Hs]. right.
+        rewrite (same_name_same_module z m Hz Hm (eq_sym E)). exact Hry. }
+      intros y z Hy Hyz. pose proof (succs_selected y z Hyz) as Hz. apply in_app_or in Hy. destruct Hy as [Hy|[<-|[]]].
+      + destruct (HG y z Hy Hyz) as [Hb|[Hs|Hr]]; [left; apply before_app_l; exact Hb| |right; right; exact Hr].
+        right. exact (Hbase y z Hz (Hres_reach y Hy) Hs).
+      + destruct (HI _ (Hsucc z Hyz)) as [Hs|(z' & Hz' & Ez)].
+        * right. apply (Hbase m z Hz); [apply rt_refl|exact Hs].
+        * left. rewrite <- (same_name_same_module z' z (Hres_sel z' Hz') Hz Ez). apply before_split; [exact Hz'|left; reflexivity].
+  Qed.
 End Closure.
 
 (* ---------- the list get_imports_recursive returns ---------- *)
@@ -316,5 +393,19 @@ Section Postorder.
     unfold imports_postorder. rewrite imports_rec_unfold. cbn [mem_str existsb].
     destruct (fold_left (visit ms provs (length ms)) (succs ms provs self) ([], [m_name self])) as [res s1].
     exists res. reflexivity.
+  Qed.
+
+  (* ... and dependencies come first: what a delivered module imports stands before it in the list — so the importer's
+     exports are merged later and win — unless the imported module leads back to the importer (an import cycle, where
+     no order can put each before the other). *)
+  Theorem imports_postorder_dependencies_first self y z : In self ms ->
+    In y (imports_postorder ms provs self) -> edge ms provs y z -> ~ reach ms provs z y ->
+    before z y (imports_postorder ms provs self).
+  Proof.
+    intros Hs Hy Hyz Hnr. unfold imports_postorder in *.
+    destruct (imports_rec (S (length ms)) ms provs [] self) as [out seen'] eqn:ER. cbn [fst] in *.
+    assert (Hf : unseen (map m_name ms) [] < S (length ms)) by (pose proof unseen_nil_le; lia).
+    destruct (imports_rec_ordered ms provs provs_selected names_unique (map m_name ms) (fun x Hx => in_map m_name ms x Hx) _ _ _ _ _ Hs Hf ER y z Hy Hyz)
+      as [Hb|[[]|Hr]]; [exact Hb|contradiction].
   Qed.
 End Postorder.
